@@ -8,7 +8,7 @@
 From Coq Require Import ZArith List Bool.
 From GV.Gen Require Import Configs.
 From GV.Model Require Import Check.
-From GV.Lemmas Require Import GridL RandL TransL C14L C13W C14W C13M C14M.
+From GV.Lemmas Require Import GridL RandL TransL C08L C14L C13W C14W C13M C14M C13X C14X C13K C14K C13R C14R.
 Import ListNotations.
 Open Scope Z_scope.
 
@@ -50,6 +50,39 @@ Theorem C14_memory_winnable : forall h w cs own own' r, 5 <= h -> 5 <= w -> w mo
     length acts = length path /\ Forall (fun a => is_move a = true) acts /\
     trace [TMoveAgent; TTurnAgent] own' s acts = Ret (map (set_pos s) path).
 Proof. exact memory_winnable. Qed.
+
+(* GENERAL (no bound): every initial state of `crossing` -- every odd shape >= 5x5, every number of rivers, every river object other than an
+   exit, every random outcome (which rivers, the order of the crossings, where each opening lands) -- is winnable by walking: the staircase of
+   openings links the agent's room to the exit's room, rooms are floor, later openings only add floor *)
+Theorem C14_crossing_winnable : forall h w n ty own own' r, 5 <= h -> 5 <= w -> h mod 2 = 1 -> w mod 2 = 1 -> 0 < n -> ty <> ty_Exit ->
+  Leaf (reset_crossing h w n ty own) r ->
+  exists s acts path, r = Ok s /\ spos s = (1, 1) /\ is_ty ty_Exit (lookupH (sgrid s) (h - 2, w - 2)) = true /\
+    walk (walkable (sgrid s) (is_ty ty_Exit) (h - 2, w - 2)) (spos s) path /\ last path (spos s) = (h - 2, w - 2) /\
+    length acts = length path /\ Forall (fun a => is_move a = true) acts /\
+    trace [TMoveAgent; TTurnAgent] own' s acts = Ret (map (set_pos s) path).
+Proof. exact crossing_winnable. Qed.
+
+(* GENERAL (no bound): every initial state of `rooms` -- every shape, every pair of split lists 0 = s_0 < ... < s_n = last index with consecutive
+   entries at least two apart (rooms at least one cell wide; the shipped layouts give e.g. [0; 3; 6]), every random outcome -- is winnable by
+   walking (or the reset raised ValueError: fewer than two floor cells): every pair of neighbouring rooms shares exactly one passage, the rooms
+   form a connected grid, agent and exit stand on floor cells; the walk reaches the exit for the first time at its end *)
+Theorem C14_rooms_winnable : forall h w ym xm, 2 <= h -> 2 <= w -> (forall y, In y ym -> 1 <= y <= h - 2) -> (forall x, In x xm -> 1 <= x <= w - 2) ->
+  gap2 (0 :: ym ++ [h - 1]) -> gap2 (0 :: xm ++ [w - 1]) ->
+  forall own own' r, Leaf (reset_rooms h w (0 :: ym ++ [h - 1]) (0 :: xm ++ [w - 1]) own) r ->
+  r = Err ValueError \/
+  exists s pe acts path, r = Ok s /\ (forall q, In q (cells_at (sgrid s) (is_ty ty_Exit)) <-> q = pe) /\
+    walk (walkable (sgrid s) (is_ty ty_Exit) pe) (spos s) path /\ last path (spos s) = pe /\ ~ In pe (removelast path) /\
+    length acts = length path /\ Forall (fun a => is_move a = true) acts /\
+    trace [TMoveAgent; TTurnAgent] own' s acts = Ret (map (set_pos s) path).
+Proof. exact rooms_winnable. Qed.
+
+(* GENERAL (no bound): every initial state of `keydoor` -- every shape with height >= 4 and width >= 5, every random outcome (wall column, door,
+   key, agent pose) -- is winnable under the shipped dynamics [move_agent; turn_agent; actuate_door; pickndrop]: an explicit action sequence
+   (walk next to the key, turn, pick it up, walk to the door, turn, unlock, walk through) ends with the agent on the exit, key in hand *)
+Theorem C14_keydoor_winnable : forall h w own own' r, 4 <= h -> 5 <= w -> Leaf (reset_keydoor h w own) r ->
+  exists s acts s', r = Ok s /\ run_actions chainK own' acts s = Ret s' /\
+    spos s' = (h - 2, w - 2) /\ is_ty ty_Exit (lookupH (sgrid s') (h - 2, w - 2)) = true /\ sheld s' = Key COL_YELLOW.
+Proof. exact keydoor_winnable. Qed.
 
 (* complete outcome trees: every initial state of these parameter sets is winnable by walking *)
 Definition walk_only_enumerable : list rparams :=
